@@ -5,7 +5,8 @@
 //! the intermediate DICOM file is parsed by the strict `vx-ref` parser.
 use std::path::Path;
 use std::time::Duration;
-use vx_kit::{json, Check, Level, Local, Value};
+use vx_kit::{json, Check, Level, Value};
+use vx_tools::Attempt;
 use vx_ref::ds::{self, RElem, RVal, Ts};
 use vx_tools::dsx;
 use vx_tools::img::{self, Color, Image};
@@ -202,9 +203,7 @@ fn read_log(p: &Path) -> String {
     }
 }
 
-fn run_case(l: &mut Local, c: &Case, dir: &Path, fromimage: &Path, toimage: &Path) {
-    l.eval();
-    let verbose = l.check.verbose;
+fn run_case(l: &mut Attempt, verbose: bool, c: &Case, dir: &Path, fromimage: &Path, toimage: &Path) {
     let im = c.image;
     let png = img::encode_png(im);
     let _ = std::fs::remove_dir_all(dir);
@@ -229,18 +228,18 @@ fn run_case(l: &mut Local, c: &Case, dir: &Path, fromimage: &Path, toimage: &Pat
     if r != Ran::Exit(0) {
         l.outcome("fromimage-failed");
         let kind = if r == Ran::Timeout { "timeout" } else { "tool-error" };
-        l.fail(&c.id, class(c, "fromimage", kind), detail(json!({ "status": r.describe(), "output": read_log(&log1) })));
+        l.fail_transient(class(c, "fromimage", kind), detail(json!({ "status": r.describe(), "output": read_log(&log1) })));
         return;
     }
     let mid = match std::fs::read(dir.join("mid.dcm")) {
         Ok(b) => b,
         Err(e) => {
             l.outcome("fromimage-no-output");
-            l.fail(&c.id, class(c, "fromimage", "no-output-file"), detail(json!({ "error": e.to_string() })));
+            l.fail(class(c, "fromimage", "no-output-file"), detail(json!({ "error": e.to_string() })));
             return;
         }
     };
-    l.nontrivial(&(c.route.name(), c.base_name, im));
+    l.nontrivial = true;
 
     // 2. the intermediate file: strict parse, image attributes and pixel data length
     let parsed = ds::parse_file_head(&mid).map_err(|e| e.to_string()).and_then(|h| {
@@ -256,7 +255,7 @@ fn run_case(l: &mut Local, c: &Case, dir: &Path, fromimage: &Path, toimage: &Pat
         Ok(e) => e,
         Err(e) => {
             l.outcome("mid-unparsable");
-            l.fail(&c.id, class(c, "intermediate", "does-not-parse"), detail(json!({ "error": e, "file_len": mid.len() })));
+            l.fail(class(c, "intermediate", "does-not-parse"), detail(json!({ "error": e, "file_len": mid.len() })));
             return;
         }
     };
@@ -270,7 +269,7 @@ fn run_case(l: &mut Local, c: &Case, dir: &Path, fromimage: &Path, toimage: &Pat
         let got = dsx::u16v(&els, tag);
         if got != Some(want) {
             l.outcome("mid-attribute-wrong");
-            l.fail(&c.id, class(c, "intermediate", &format!("attribute-{name}")), detail(json!({ "attribute": name, "expected": want, "got": got, "dataset": dsx::show(&els) })));
+            l.fail(class(c, "intermediate", &format!("attribute-{name}")), detail(json!({ "attribute": name, "expected": want, "got": got, "dataset": dsx::show(&els) })));
             return;
         }
     }
@@ -302,7 +301,7 @@ fn run_case(l: &mut Local, c: &Case, dir: &Path, fromimage: &Path, toimage: &Pat
     };
     if let Some((kind, msg)) = pix_problem {
         l.outcome("mid-pixel-data-wrong");
-        l.fail(&c.id, class(c, "intermediate", kind), detail(json!({ "problem": msg, "dataset": dsx::show(&els) })));
+        l.fail(class(c, "intermediate", kind), detail(json!({ "problem": msg, "dataset": dsx::show(&els) })));
         return;
     }
 
@@ -319,14 +318,14 @@ fn run_case(l: &mut Local, c: &Case, dir: &Path, fromimage: &Path, toimage: &Pat
     if r != Ran::Exit(0) {
         l.outcome("toimage-failed");
         let kind = if r == Ran::Timeout { "timeout" } else { "tool-error" };
-        l.fail(&c.id, class(c, "toimage", kind), detail(json!({ "status": r.describe(), "output": read_log(&log2), "dataset": dsx::show(&els) })));
+        l.fail_transient(class(c, "toimage", kind), detail(json!({ "status": r.describe(), "output": read_log(&log2), "dataset": dsx::show(&els) })));
         return;
     }
     let got = match img::read_png(&dir.join("out.png")) {
         Ok(i) => i,
         Err(e) => {
             l.outcome("export-unreadable");
-            l.fail(&c.id, class(c, "toimage", "output-not-a-png"), detail(json!({ "error": e })));
+            l.fail(class(c, "toimage", "output-not-a-png"), detail(json!({ "error": e })));
             return;
         }
     };
@@ -334,7 +333,7 @@ fn run_case(l: &mut Local, c: &Case, dir: &Path, fromimage: &Path, toimage: &Pat
     // 4. compare
     if (got.w, got.h) != (im.w, im.h) {
         l.outcome("dimensions-differ");
-        l.fail(&c.id, class(c, "compare", "dimensions"), detail(json!({ "expected": [im.w, im.h], "got": [got.w, got.h] })));
+        l.fail(class(c, "compare", "dimensions"), detail(json!({ "expected": [im.w, im.h], "got": [got.w, got.h] })));
         return;
     }
     if c.route == Route::C {
@@ -343,13 +342,13 @@ fn run_case(l: &mut Local, c: &Case, dir: &Path, fromimage: &Path, toimage: &Pat
     }
     if got.color != im.color {
         l.outcome("colour-type-differs");
-        l.fail(&c.id, class(c, "compare", "colour-type"), detail(json!({ "expected": im.color.name(), "got": got.color.name() })));
+        l.fail(class(c, "compare", "colour-type"), detail(json!({ "expected": im.color.name(), "got": got.color.name() })));
         return;
     }
     if got.samples != im.samples {
         let first = got.samples.iter().zip(&im.samples).position(|(a, b)| a != b);
         l.outcome("values-differ");
-        l.fail(&c.id, class(c, "compare", "pixel-values"), detail(json!({ "first_difference_at_sample": first,
+        l.fail(class(c, "compare", "pixel-values"), detail(json!({ "first_difference_at_sample": first,
             "expected": &im.samples[..im.samples.len().min(24)], "got": &got.samples[..got.samples.len().min(24)] })));
         return;
     }
@@ -395,7 +394,8 @@ fn main() {
             return;
         }
         let dir = scratch.join(format!("c{i}"));
-        run_case(l, c, &dir, &fromimage, &toimage);
+        let verbose = l.check.verbose;
+        vx_tools::run_with_retries(l, &c.id, 3, |a| run_case(a, verbose, c, &dir, &fromimage, &toimage));
         let _ = std::fs::remove_dir_all(&dir);
     });
     let _ = std::fs::remove_dir_all(&scratch);
